@@ -26,8 +26,8 @@ class Img(np.ndarray):
     pass
 
 
-def blob_movie(rng, nframes):
-    """small uint8 blob movie for find_link_iter"""
+def blob_movie(rng, nframes, amp=200, bg=0):
+    """small uint8 blob movie for find_link_iter (blobs of amplitude amp on a constant background bg)"""
     n = rng.randint(2, 4)
     pos = [[rng.randint(12, 52), rng.randint(12, 52)] for _ in range(n)]
     # keep blobs apart
@@ -36,9 +36,9 @@ def blob_movie(rng, nframes):
     frames = []
     yy, xx = np.mgrid[0:64, 0:64]
     for t in range(nframes):
-        img = np.zeros((64, 64))
+        img = np.zeros((64, 64)) + bg
         for p in pos:
-            img += 200 * np.exp(-((yy - p[0]) ** 2 + (xx - p[1]) ** 2) / (2 * 2.0 ** 2))
+            img += amp * np.exp(-((yy - p[0]) ** 2 + (xx - p[1]) ** 2) / (2 * 2.0 ** 2))
             p[1] += rng.randint(-2, 2)
             p[1] = min(max(p[1], 10), 54)
         im = np.clip(img, 0, 255).astype(np.uint8).view(Img)
@@ -49,12 +49,16 @@ def blob_movie(rng, nframes):
 
 def make_job(rng, kind):
     if kind == 'find_link':
-        return dict(kind=kind, images=blob_movie(rng, rng.randint(2, 4)), memory=rng.choice([0, 1]))
+        amp, bg = rng.choice([(200, 0), (60, 0), (100, 120), (40, 0), (120, 60)])
+        nfr = rng.randint(2, 4)
+        # detections withheld from the linker in frames after the first (forces relocation from the image)
+        withhold = {t: rng.choice(['all', 'first', 'none']) for t in range(1, nfr)}
+        return dict(kind=kind, images=blob_movie(rng, nfr, amp=amp, bg=bg), memory=rng.choice([0, 1]), amp=amp, bg=bg, withhold=withhold)
     q = rng.random() < 0.4
     fr = linkgen.gen_movie(rng, quarter=q, nframes=rng.randint(2, 6))
     ndim = fr[0].shape[1]
     sr = linkgen.gen_range(rng, ndim, quarter=q, aniso=False)
-    return dict(kind=kind, frames=fr, sr=sr, memory=rng.choice([0, 1, 2, 3]), ndim=ndim, max_size=30,
+    return dict(kind=kind, frames=fr, sr=sr, memory=rng.choice([0, 1, 2, 3]), ndim=ndim, max_size=linkgen.LIMIT,
                 strategy=rng.choice(['recursive', 'nonrecursive', 'numba']))
 
 
@@ -63,7 +67,16 @@ def start(job):
     k = job['kind']
     if k == 'find_link':
         from trackpy.linking.find_link import find_link_iter
-        return find_link_iter(job['images'], 4, 9, memory=job['memory'])
+        wh = job.get('withhold', {})
+
+        def before_link(coords, image, **kw):
+            mode = wh.get(getattr(image, 'frame_no', None), 'none')
+            if mode == 'all':
+                return coords[:0]
+            if mode == 'first' and len(coords):
+                return coords[1:]
+            return coords
+        return find_link_iter(job['images'], 4, 9, memory=job['memory'], before_link=before_link)
     srf = linkgen.sr_float(job['sr'])
     if k == 'iter':
         return tp.link_iter(iter([f.copy() for f in job['frames']]), srf, memory=job['memory'], link_strategy=job['strategy'])
@@ -160,19 +173,29 @@ def corpus():
     """the witness schedule of C04_shared_counter_refuted (defect F1, fixed): job 0 advances two frames
     with a newborn each, job 1 starts, job 0 advances"""
     f = lambda xs: np.array([[float(x)] for x in xs])
-    j0 = dict(kind='iter', frames=[f([0, 10, 20]), f([0, 10, 20, 30]), f([0, 10, 20, 30, 40])], sr=Fraction(2), memory=0, ndim=1, max_size=30, strategy='recursive')
-    j1 = dict(kind='iter', frames=[f([0])], sr=Fraction(2), memory=0, ndim=1, max_size=30, strategy='recursive')
+    j0 = dict(kind='iter', frames=[f([0, 10, 20]), f([0, 10, 20, 30]), f([0, 10, 20, 30, 40])], sr=Fraction(2), memory=0, ndim=1, max_size=linkgen.LIMIT, strategy='recursive')
+    j1 = dict(kind='iter', frames=[f([0])], sr=Fraction(2), memory=0, ndim=1, max_size=linkgen.LIMIT, strategy='recursive')
     return [([j0, j1], [0, 0, 1, 0])]
 
 
 def run(chk):
+    with linkgen.size_limit(linkgen.LIMIT):
+        return _run(chk)
+
+
+def _run(chk):
     common.quiet_trackpy()
     chk.coq()
     rng = chk.rng
     n = 160 if chk.tier == 'quick' else 1500
     cases = corpus()
     for k in range(n):
-        if rng.random() < 0.4:
+        if rng.random() < 0.12:
+            # two find_link jobs on different movies (bright / dim), detections withheld so that both relocate from their images
+            jobs = [make_job(rng, 'find_link'), make_job(rng, 'find_link')]
+            sched = [j for j, job in enumerate(jobs) for _ in range(nsteps(job))]
+            rng.shuffle(sched)
+        elif rng.random() < 0.4:
             # targeted: a job with memory holding vanished particles, a small job started in between
             a = make_job(rng, rng.choice(['iter', 'df_iter']))
             while len(a['frames']) < 4:
@@ -198,10 +221,14 @@ def run(chk):
             rng.shuffle(sched)
         if any(j['kind'] != 'find_link' and linkgen.max_inrange(j['frames'], j['sr'], j['memory']) > 8 for j in jobs):
             continue
+        if any(j['kind'] == 'whole' and sum(len(f) for f in j['frames']) == 0 for j in jobs):
+            continue   # tp.link on a table without any row is outside the property (nothing to label)
         # prior-call history: sometimes run a complete unrelated call first
         if rng.random() < 0.2:
-            sched = [len(jobs)] + sched
-            jobs = jobs + [dict(make_job(rng, 'iter'), kind='whole')]
+            extra = dict(make_job(rng, 'iter'), kind='whole')
+            if sum(len(f) for f in extra['frames']) > 0:
+                sched = [len(jobs)] + sched
+                jobs = jobs + [extra]
         cases.append((jobs, sched))
     terms, metas = [], []
     for jobs, sched in cases:
@@ -227,7 +254,14 @@ def run(chk):
                     chk.violation('find_link job: partition depends on other jobs', 'find_link_iter job %d: partition differs from its solo / repeated run under schedule %s' % (j, sched),
                                   dict(kind='schedule', job=j, case=jsonable_jobs(jobs, sched, inter), solo=solo[j]))
                 continue
-            c = dict(frames=job['frames'], sr=job['sr'], memory=job['memory'], max_size=30, strategy=job['strategy'], ndim=job['ndim'])
+            if job['kind'] == 'whole' and inter[j] == [None]:
+                # a complete tp.link call that raised SubnetOversizeException: must do so in every history
+                chk.tally('whole job raised oversize')
+                if solo[j] != [None] or again[j] != [None]:
+                    chk.violation('whole job: raise depends on other jobs', 'tp.link raised SubnetOversizeException only in some histories (schedule %s)' % sched,
+                                  dict(kind='schedule', job=j, case=jsonable_jobs(jobs, sched, inter), solo=solo[j]))
+                continue
+            c = dict(frames=job['frames'], sr=job['sr'], memory=job['memory'], max_size=linkgen.LIMIT, strategy=job['strategy'], ndim=job['ndim'])
             terms.append(c02.case_term(c, inter[j])); metas.append((jobs, sched, j, inter, solo, same))
             if not same:
                 chk.tally('partition differs from solo run (monitor decides tie)')
@@ -246,6 +280,11 @@ def run(chk):
 
 
 def replay(chk, path):
+    with linkgen.size_limit(linkgen.LIMIT):
+        return _replay(chk, path)
+
+
+def _replay(chk, path):
     common.quiet_trackpy()
     chk.coq()
     r = json.load(open(path))['replay']
@@ -257,11 +296,11 @@ def replay(chk, path):
         fr = [np.array(f, dtype=float).reshape(len(f), -1) for f in d['frames']]
         ndim = d['ndim']
         jobs.append(dict(kind=d['kind'], frames=[f.reshape(len(f), ndim) for f in fr], sr=Fraction(d['search_range']), memory=d['memory'], ndim=ndim,
-                         max_size=30, strategy=d['strategy']))
+                         max_size=linkgen.LIMIT, strategy=d['strategy']))
     inter = run_schedule(jobs, cj['schedule'])
     j = r.get('job', 0)
     job = jobs[j]
-    c = dict(frames=job['frames'], sr=job['sr'], memory=job['memory'], max_size=30, strategy=job['strategy'], ndim=job['ndim'])
+    c = dict(frames=job['frames'], sr=job['sr'], memory=job['memory'], max_size=linkgen.LIMIT, strategy=job['strategy'], ndim=job['ndim'])
     res = common.coq_eval_lists(chk.work, IMPORTS, FUNC, [c02.case_term(c, inter[j])])
     chk.count(('replay', cj), True)
     print('replay: job', j, 'labels', inter[j], 'monitor code', res[0], CODES.get(res[0]))
